@@ -151,8 +151,28 @@ def relclose(a, b, tol, scale):
 
 
 # ---------------------------------------------------------------------------------------------------- S5 oracle: trees
+def scan_references(ctx, obs):
+    """the sequential traversals the parallel ones are compared with must themselves be finite: a NaN there is a violation with its call"""
+    bad_ids = set()
+    for o in obs:
+        k = o.get("kind")
+        if k in ("root1d", "short_ref", "pool_grid_ref", "root2d"):
+            bad = nonfinite_in({kk: vv for kk, vv in o.items() if kk in ("seq", "seq1", "seq2")})
+            if bad:
+                if k == "root2d":
+                    call = f"Steps2D(({f64_of_hex(o['x0'])!r}, {f64_of_hex(o['x1'])!r}, {o['nx']}), ({f64_of_hex(o['y0'])!r}, {f64_of_hex(o['y1'])!r}, {o['ny']})).into_iter()"
+                else:
+                    call = f"Steps({f64_of_hex(o['s'])!r}, {f64_of_hex(o['e'])!r}, {o.get('n', o.get('len'))}).into_iter()"
+                ctx.violation("S5", f"{call} (the sequential traversal) delivers a non-finite value ({bad[0][1]!r} at {bad[0][0]})", {"kind": "non_finite", "obs": k},
+                              {"call": call, "non_finite_at": [b[0] for b in bad], "observation": brief(o)})
+                bad_ids.add(id(o))
+    return [o for o in obs if id(o) not in bad_ids]
+
+
 def oracle_trees(ctx, obs):
+    obs = scan_references(ctx, obs)
     roots = {o["root"]: o for o in obs if o["kind"] in ("root1d", "root2d")}
+    obs = [o for o in obs if o["kind"] not in ("tree1d", "tree2d") or o["root"] in roots]
     for o in obs:
         k = o["kind"]
         if k == "tree1d":
@@ -252,10 +272,20 @@ def oracle_trees(ctx, obs):
                          "(reachable through rayon adaptors such as skip(0)/take(0), not through bridge)")
         elif k == "enum_rev":
             exp1 = [[4 - i, float(4 - i)] for i in range(5)]
-            if o["one_d_panic"] or o["two_d_panic"] or o["one_d"] != exp1:
-                ctx.note("latent (not a schedule effect, not alarmed): Steps(0.,4.,5).into_par_iter().enumerate().rev().collect() "
-                         + (f"panics ({o['one_d_panic']})" if o["one_d_panic"] else f"returns {o['one_d']}")
-                         + " — Iterator1D/2D::len() ignore partial consumption and provide no size_hint, which std's Zip::next_back relies on")
+            exp2 = [[3, 1.0, 1.0], [2, 0.0, 1.0], [1, 1.0, 0.0], [0, 0.0, 0.0]]
+            for dim, got, pan, exp, call in ((1, o["one_d"], o["one_d_panic"], exp1, "Steps(0., 4., 5).into_par_iter().enumerate().rev().collect::<Vec<(usize, f64)>>()"),
+                                             (2, o["two_d"], o["two_d_panic"], exp2, "Steps2D((0., 1., 2), (0., 1., 2)).into_par_iter().enumerate().rev().collect::<Vec<(usize, (f64, f64))>>()")):
+                if pan or got != exp:
+                    ctx.violation("S5", f"{call} on a one-thread pool " + (f"panics ({pan})" if pan else f"returns {got} instead of {exp}") +
+                                        ": the leaf iterator's len() (ExactSizeIterator) keeps reporting the length at creation after items were taken from it, which std's Zip::next_back "
+                                        "(reached through rayon's enumerate().rev()) relies on; positions and points are no longer paired as in the sequential traversal",
+                                  {"kind": "exact_size_after_consumption", "dim": dim},
+                                  {"call": call, "pool": "rayon::ThreadPoolBuilder::new().num_threads(1)", "panic": pan, "got": got, "expected": exp,
+                                   "coq_witness": "coq/Findings/C15_len_after_consumption.v", "proposed_patch": "work/fixes/C15-exact-size-len.diff"})
+        elif k == "len_after_consumption":
+            for dim, (ln, rem) in ((1, o["one_d"]), (2, o["two_d"])):
+                if ln != rem:
+                    ctx.note(f"Iterator{dim}D::len() after partial consumption reports {ln}, {rem} items remain (ExactSizeIterator contract; see the exact_size_after_consumption finding)")
         elif k == "harness_crash":
             ctx.violation("S5", "harness crashed", {"kind": "crash"}, o)
 
@@ -265,7 +295,28 @@ def cabs(re, im):
     return (float(re) ** 2 + float(im) ** 2) ** 0.5
 
 
+def quadrature_table():
+    """generated: range evaluator -> (point value reaches the always-parallel 2-D quadrature, reaches the 1-D quadrature (parallel from 128 slices on))"""
+    try:
+        txt = open(os.path.join(COQ, "Gen", "C15_ParSites.v")).read()
+    except OSError:
+        return {}
+    txt = txt[txt.index("Definition range_quadrature"):] if "Definition range_quadrature" in txt else ""
+    return {m.group(1): (m.group(2) == "true", m.group(3) == "true") for m in re.finditer(r'\("(\w+)", \((true|false), (true|false)\)\)', txt)}
+
+
+def point_is_parallel_quadrature(table, label, default_divs):
+    """label: 'jsi_range' or 'jsi_range[Simpson divs=130]'"""
+    base = label.split("[")[0]
+    m = re.search(r"divs=(\d+)", label)
+    divs = int(m.group(1)) if m else default_divs
+    two_d, one_d = table.get(base, (False, False))
+    return two_d or (one_d and divs + divs % 2 - 2 >= 128)
+
+
 def oracle_pools(ctx, obs):
+    qtable = quadrature_table()
+    obs = scan_references(ctx, obs)
     refs = {o["case"]: o for o in obs if o["kind"] == "pool_grid_ref"}
     first = {}
     for o in obs:
@@ -348,7 +399,8 @@ def oracle_pools(ctx, obs):
                     continue
                 i = idx[0]
                 is_series = "hom" in fn
-                reduces = fn.startswith("jsi_singles") or "Simpson divs=130" in fn     # the point function itself contains a parallel quadrature
+                # is the point function itself a parallel quadrature?  From the generated call-graph table, not from the name
+                reduces = (not is_series) and point_is_parallel_quadrature(qtable, fn, o["divs"])
                 if is_series or reduces:
                     worst = max(abs(H(arr[j]) - H(rarr[j])) / max(abs(H(rarr[j])), Fraction(1, 1000) if is_series else Fraction(1, 10**300)) for j in idx)
                     if any(H(rarr[j]) == 0 for j in idx) or worst > TOL_RED:
@@ -359,7 +411,7 @@ def oracle_pools(ctx, obs):
                         ctx.violation("S5", f"{fn} is not bit-identical across schedules: on {o['threads']} thread(s) {len(idx)} of {len(arr)} elements differ from the one-thread array in the last bits "
                                             f"(element {i}: {f64_of_hex(arr[i])!r} vs {f64_of_hex(rarr[i])!r}, worst relative difference {float(worst):.2e} <= 1e-12): each point value is itself a parallel "
                                             f"quadrature (simpson2d over 1-D producers / Simpson with >= 128 slices) whose rounding depends on the split tree",
-                                      {"kind": "range_not_bit_identical", "cause": "nested_parallel_quadrature"},
+                                      {"kind": "range_not_bit_identical", "cause": "nested_parallel_quadrature", "fn": fn},
                                       dict(inp, fn=fn, space=space, index=i, got=arr[i], single_thread=rarr[i], elements_differing=len(idx), worst_relative=float(worst),
                                            call=f"JointSpectrum::{fn.split('[')[0]}(<{space}>) inside rayon::ThreadPoolBuilder::new().num_threads({o['threads']}).build().install(..) vs num_threads(1)"))
                 else:
@@ -379,7 +431,9 @@ def oracle_pools(ctx, obs):
 def oracle_short(ctx, obs):
     """the 1-D producer through real rayon drives on every length 0..40: same points, same positions (1e-14 of the range scale; exact on dyadic ranges
     is NOT required here: the property allows rounding for 1-D ranges), counts, sums to 1e-12"""
+    obs = scan_references(ctx, obs)
     refs = {(o["len"], o["rep"]): o for o in obs if o["kind"] == "short_ref"}
+    obs = [o for o in obs if o["kind"] not in ("short", "short_failed") or (o["len"], o["rep"]) in refs]
     for o in obs:
         if o["kind"] == "short_failed":
             r = refs[(o["len"], o["rep"])]
@@ -643,6 +697,22 @@ def selftest(ctx, obs):
     return n_exp, n_got
 
 
+def require_complete(ctx, obs, mode, minimum):
+    """a harness run that crashed, timed out or produced too little must not leave its clauses silently unchecked"""
+    counts = {}
+    for o in obs:
+        counts[o.get("kind")] = counts.get(o.get("kind"), 0) + 1
+    missing = {k: (counts.get(k, 0), m) for k, m in minimum.items() if counts.get(k, 0) < m}
+    done = any(o.get("kind") == "done" and o.get("mode") == mode for o in obs)
+    if missing or not done:
+        ctx.violation("S5", f"harness mode `{mode}` did not deliver its observations (" + ("no completion marker; " if not done else "") +
+                            ", ".join(f"{k}: {a} of at least {m}" for k, (a, m) in missing.items()) + "): the clauses it feeds are unchecked",
+                      {"kind": "harness_incomplete", "mode": mode}, {"counts": counts, "required": minimum, "done_marker": done,
+                                                                      "crash": next((o for o in obs if o.get("kind") == "harness_crash"), None)}, found_input=False)
+        return False
+    return True
+
+
 def run(ctx):
     want = replay_setup(ctx)
     quick = ctx.tier == "quick"
@@ -652,28 +722,34 @@ def run(ctx):
     for m in msgs:
         gf = next((f for g, f in (("c15_reductions", "Gen/C15_Reductions.v"), ("c15_parsites", "Gen/C15_ParSites.v"), ("ranges", "Gen/Ranges.v")) if f"generator {g}]" in m), "Gen/Grid.v")
         ctx.proof_failures.append((gf, "translator", m))
+    okf, _, _ = coq_build(ctx, ["Findings/C15_len_after_consumption.vo"]) if not msgs else (True, [], "")
+    if not okf:
+        ctx.note("Findings/C15_len_after_consumption.v no longer builds (the witness of the exact-size finding does not reproduce on this tree)")
     proved = (not msgs) and prove(ctx, "C15", extra_targets=["Model/GridCheck.vo", "Props/C15_pins.vo", "Model/C15_Bridge.vo"])
     tier = "thorough" if not quick else "quick"
     obs = run_harness(ctx, binp, ["c15", ctx.seed, 2 if quick else 10, "trees", tier], timeout=900)
-    if not any(o["kind"] == "done" for o in obs):
-        ctx.violation("S5", "harness did not finish the split-tree runs", {"kind": "crash"}, {"tail": obs[-1] if obs else None})
+    require_complete(ctx, obs, "trees", {"root1d": 60, "root2d": 10, "tree1d": 2000, "tree2d": 500, "enum_rev": 1, "split0_1d": 1})
     guarded_oracle(ctx, "split-tree", oracle_trees, ctx, obs)
     ne, ng = selftest(ctx, obs)
     ctx.log(f"S5 oracle self-test: {ng}/{ne} corrupted observations flagged")
     pobs = run_harness(ctx, binp, ["c15", ctx.seed, 2 if quick else 4, "pools", tier], timeout=2400)
-    if not any(o["kind"] in ("done", "timeout") for o in pobs):
-        ctx.violation("S5", "harness did not finish the thread-pool runs", {"kind": "crash"}, {"tail": pobs[-1] if pobs else None})
+    if not any(o["kind"] == "timeout" for o in pobs):
+        require_complete(ctx, pobs, "pools", {"pool_grid_ref": 2, "pool_grid": 32, "pool_quad": 32, "pool_spdc": 32})
     guarded_oracle(ctx, "thread-pool", oracle_pools, ctx, pobs)
     shobs = run_harness(ctx, binp, ["c15", ctx.seed, 1 if quick else 3, "short"], timeout=1200)
     guarded_oracle(ctx, "thread-pool", oracle_pools, ctx, [o for o in shobs if o["kind"] in ("timeout", "pool_panic")])
     guarded_oracle(ctx, "short-range", oracle_short, ctx, shobs)
+    if not any(o["kind"] == "timeout" for o in shobs):
+        require_complete(ctx, shobs, "short", {"short_ref": 41, "short": 41 * 6 - 6})
     bobs = run_harness(ctx, binp, ["c15", ctx.seed, 3 if quick else 20, "bridge"], timeout=600)
     oracle_pools(ctx, [o for o in bobs if o["kind"] in ("timeout", "pool_panic")])
+    if not any(o["kind"] == "timeout" for o in bobs):
+        require_complete(ctx, bobs, "bridge", {"bridge_log": 40})
     if os.path.exists(os.path.join(COQ, "Model", "C15_Bridge.vo")):
         guarded_oracle(ctx, "bridge", oracle_bridge, ctx, bobs)
     sobs = run_harness(ctx, binp, ["c15", ctx.seed, 2 if quick else 8, "simpson"], timeout=1200)
-    if not any(o["kind"] in ("done", "timeout") for o in sobs):
-        ctx.violation("S5", "harness did not finish the Simpson runs", {"kind": "crash"}, {"tail": sobs[-1] if sobs else None})
+    if not any(o["kind"] == "timeout" for o in sobs):
+        require_complete(ctx, sobs, "simpson", {"simpson_ref": 2, "simpson": 14})
     oracle_pools(ctx, [o for o in sobs if o["kind"] in ("timeout", "pool_panic")])
     guarded_oracle(ctx, "simpson", oracle_simpson, ctx, sobs)
     # self-test: a parallel branch that drops the last node (relative change ~ 1/(3 divs)) must be flagged at its division counts only
@@ -742,7 +818,8 @@ def run(ctx):
     ctx.cov["clauses"] = {
         "2-D grid: same points, same positions, any split tree": "proved (any carrier => bit-exact) + validated on the real split_at",
         "1-D range: any split tree": "proved over the reals; float clause proved_partial (Flocq, FLX-53 rounding of every operation: ((1+4u)^(depth+1)-1) of the range scale; guard: no overflow/underflow) and checked against the harness",
-        "len contract of reachable producers": "proved",
+        "len contract of reachable producers": "proved for the length AT CREATION (all that bridge / enumerate / collect use); after partial consumption len() is wrong on the unchanged tree: "
+                                               "finding exact_size_after_consumption (enumerate().rev() panics), Findings/C15_len_after_consumption.v, patch work/fixes/C15-exact-size-len.diff",
         "enumerate / indexed collect deliver point k at position k": "proved (model of rayon's EnumerateProducer / CollectConsumer)",
         "reductions (sums) independent of the tree": "proved in any monoid (R, C), also under enumerate(); tied to the code by the generated call-site table (counts, hom_rate, simpson, "
                                                      "simpson2d: every parallel site classified and pinned; simpson's parallel branch proved to sum the same nodes through the same closures as its "
